@@ -2,7 +2,9 @@
 
 from __future__ import annotations
 
+from functools import partial
 from typing import TYPE_CHECKING
+from typing import Awaitable
 
 from liquid2.exceptions import TemplateNotFoundError
 from liquid2.loader import BaseLoader
@@ -13,6 +15,7 @@ from .mixins import CachingLoaderMixin
 if TYPE_CHECKING:
     from liquid2 import Environment
     from liquid2 import RenderContext
+    from liquid2.loader import UpToDate
 
 
 class ChoiceLoader(BaseLoader):
@@ -35,13 +38,80 @@ class ChoiceLoader(BaseLoader):
         **kwargs: object,
     ) -> TemplateSource:
         """Get source information for a template."""
-        for loader in self.loaders:
+        for i, loader in enumerate(self.loaders):
             try:
-                return loader.get_source(env, template_name, context=context, **kwargs)
+                source = loader.get_source(
+                    env, template_name, context=context, **kwargs
+                )
             except TemplateNotFoundError:
-                pass
+                continue
+
+            if i == 0:
+                return source
+
+            # The template is up to date for as long as none of the loaders that
+            # come first has a template of this name.
+            return source._replace(
+                uptodate=partial(
+                    self._still_first,
+                    self.loaders[:i],
+                    source.uptodate,
+                    env,
+                    template_name,
+                    context,
+                    kwargs,
+                )
+            )
 
         raise TemplateNotFoundError(template_name)
+
+    @staticmethod
+    def _still_first(
+        loaders: list[BaseLoader],
+        uptodate: UpToDate,
+        env: Environment,
+        template_name: str,
+        context: RenderContext | None,
+        kwargs: dict[str, object],
+    ) -> bool:
+        for loader in loaders:
+            try:
+                loader.get_source(env, template_name, context=context, **kwargs)
+            except TemplateNotFoundError:
+                continue
+            return False
+
+        if uptodate is None:
+            return True
+
+        rv = uptodate()
+        return rv if isinstance(rv, bool) else False
+
+    @staticmethod
+    async def _still_first_async(
+        loaders: list[BaseLoader],
+        uptodate: UpToDate,
+        env: Environment,
+        template_name: str,
+        context: RenderContext | None,
+        kwargs: dict[str, object],
+    ) -> bool:
+        for loader in loaders:
+            try:
+                await loader.get_source_async(
+                    env, template_name, context=context, **kwargs
+                )
+            except TemplateNotFoundError:
+                continue
+            return False
+
+        if uptodate is None:
+            return True
+
+        rv = uptodate()
+        if isinstance(rv, Awaitable):
+            rv = await rv
+        return bool(rv)
 
     async def get_source_async(
         self,
@@ -52,13 +122,28 @@ class ChoiceLoader(BaseLoader):
         **kwargs: object,
     ) -> TemplateSource:
         """Get source information for a template."""
-        for loader in self.loaders:
+        for i, loader in enumerate(self.loaders):
             try:
-                return await loader.get_source_async(
+                source = await loader.get_source_async(
                     env, template_name, context=context, **kwargs
                 )
             except TemplateNotFoundError:
-                pass
+                continue
+
+            if i == 0:
+                return source
+
+            return source._replace(
+                uptodate=partial(
+                    self._still_first_async,
+                    self.loaders[:i],
+                    source.uptodate,
+                    env,
+                    template_name,
+                    context,
+                    kwargs,
+                )
+            )
 
         raise TemplateNotFoundError(template_name)
 
